@@ -65,6 +65,10 @@ def check_case(run, impls, inp, rows, affine, np):
                     if form == "array" and (go or a != 1.0):
                         continue
                     try:
+                        # poison the allocator's free lists: a table row the code forgets to write must not show the correct
+                        # values left there by the previous call on the same input
+                        junk = [np.full((len(x) - 1, 3), np.nan), np.full((len(x) - 1, 2), -7, np.int64), np.full(len(x), np.nan)]
+                        del junk
                         res = fn(arg, go)
                         if go:
                             rf, os_ = res
@@ -92,6 +96,43 @@ def check_case(run, impls, inp, rows, affine, np):
     return ok
 
 
+def layout_case(run, impls, inp, rows, lays, filler, np):
+    """spec section 'Memory layouts': the sequence sits in a buffer as (offset, stride); every implementation must read it
+    through the view (table = the one of the plain list) and must not write any cell of the buffer (InputNeverWritten)"""
+    exp_rf = np.array([[r[0] / 2.0, r[1] / 2.0, r[2] / 2.0] for r in rows], float).reshape(-1, 3)
+    exp_os = np.array([[r[3], r[4]] for r in rows], np.int64).reshape(-1, 2)
+    n = len(inp)
+    ok = True
+    for lay in lays:
+        for dt in (np.float64, np.int64):
+            buf = np.full(lay["len"], filler, dt)
+            for i in range(n):
+                buf[lay["off"] + i * lay["stride"]] = inp[i]
+            view = buf[lay["off"]::lay["stride"]][:n]
+            if view.tolist() != [dt(v).item() for v in inp]:
+                raise RuntimeError("layout construction does not read back the sequence")
+            snap = buf.tobytes()
+            for name, fn in impls:
+                for go in (True, False):
+                    bad = None
+                    try:
+                        res = fn(view, go)
+                        rf, os_ = (np.asarray(res[0], float), np.asarray(res[1])) if go else (np.asarray(res, float), None)
+                        if rf.shape != exp_rf.shape or not np.array_equal(rf, exp_rf) or (os_ is not None and not np.array_equal(os_, exp_os)):
+                            bad = "table(%s, getoffsets=%s) on a %s %s view differs from the table of the same sequence as a list" % (name, go, lay["name"], np.dtype(dt).name)
+                    except Exception as ex:
+                        bad = "%s raised %r on a %s %s view" % (name, ex, lay["name"], np.dtype(dt).name)
+                    if bad is None and buf.tobytes() != snap:
+                        bad = "%s (getoffsets=%s) wrote into the caller's array (%s %s view)" % (name, go, lay["name"], np.dtype(dt).name)
+                        buf[:] = np.frombuffer(snap, dt)
+                    run.case(None, nontrivial=False)
+                    if bad:
+                        ok = False
+                        run.violation(bad, {"inp": inp, "layout": lay, "impl": name, "getoffsets": go, "expected_rows": rows},
+                                      {"impl": name, "layout": lay["name"]})
+    return ok
+
+
 def body(run: Run, replay):
     import numpy as np
 
@@ -100,7 +141,9 @@ def body(run: Run, replay):
                 "Impl-shaped machine = ASTM reference + counting/offset/largest-range/metamorphic invariants, and "
                 "exports the expected table per input; each implementation built from the working tree (c_rain fast, "
                 "c_rain two-pass macro variant, py_rain, cyclecount.rainflow np/pandas; with and without offsets) is "
-                "run on every input and on 7 affine images; distinct non-trivial = inputs with >= 3 points whose table "
+                "run on every input and on 7 affine images; a sample of the inputs is also passed as non-contiguous views (spec Layouts: every "
+                "second cell, table column, reversed view; float64 and int64) with the rest of the buffer holding a filler, and the whole "
+                "buffer must be unchanged afterwards (InputNeverWritten); distinct non-trivial = inputs with >= 3 points whose table "
                 "has at least one full cycle or a step-5 half cycle (i.e. not a pure step-6 flush)")
     run.assumptions = [
         "numba is not installed: py_rain's numba-decorated definitions run undecorated",
@@ -128,6 +171,10 @@ def body(run: Run, replay):
         exports = res.tagged("RF")
         if not exports:
             raise RuntimeError("no RF exports from TLC")
+        layouts = {L: (sorted(lays, key=lambda d: d["name"]), filler) for L, lays, filler in res.tagged("LAYOUT")}
+        if not layouts:
+            raise RuntimeError("no LAYOUT exports from TLC")
+        nlay = 0
         for inp, rows in exports:
             key = tuple(inp)
             if key in seen:
@@ -140,6 +187,9 @@ def body(run: Run, replay):
             nontriv = len(inp) >= 3 and (full or [[r[3], r[4]] for r in rows] != chain)
             quick_aff = AFFINE if (run.tier == "thorough" or len(seen) % 8 == 0) else AFFINE[:2]
             ok = check_case(run, impls, inp, rows, quick_aff, np)
+            if ok and (run.tier == "thorough" and len(seen) % 3 == 0 or len(seen) % 11 == 0) and len(inp) in layouts:
+                ok = layout_case(run, impls, inp, rows, layouts[len(inp)][0], layouts[len(inp)][1], np)
+                nlay += 1
             run.trace_validated()
             run.case(key, nontrivial=nontriv)
             if nontriv:
